@@ -80,6 +80,10 @@ def run(F, R):
     f2_producer(F, R, M, pubs, dvars)
     # F8: the form chosen (direct chain vs one indirect table) agrees with the capacity test that admitted the
     # submission, so the chain written always fits the descriptors reserved for it (shared with C03.E3)
+    # F10: free-running ring indices only through wrapping arithmetic (a wrong wrap makes stale used entries release chains
+    # that are still outstanding - one descriptor then belongs to two chains); shared with C03.E5
+    from .C03 import counters_rule
+    counters_rule(F, R, 'F10')
     from .C03 import e3_capacity
     for add_id in pubs:
         e3_capacity(F, R, M, add_id, rule='F8', rule1='F8')
@@ -594,6 +598,28 @@ def f6_coherence(F, R, M, sg, acc, rule='F6'):
     R.check(from_shadow, rule, '%s:from-shadow' % eid, site(sg, dstores[0].node),
             'device-table stores copy from the trusted shadow table',
             'a device-table store does not copy from the shadow table')
+    # ... at the index of an element this submission wrote: the copy's index is the free-list index the shadow element was
+    # written at, not an index computed from the head (a chain's descriptors are not contiguous once the free list is permuted)
+    elem_idx = set()
+    for n_, loc_, v_ in desc_flag_stores(sg, M):
+        if n_ in live:
+            for pp in loc_[2]:
+                if pp[0] == 'idx':
+                    elem_idx.add(strip_conv(pp[1]))
+    stray = None
+    pubs = [a.node for a in acc if a.kind == 'store' and a.area == 'avail.idx' and a.node in live]
+    before_pub = sg.reach_bwd(pubs) if pubs else set()
+    for a in dstores:
+        if a.node not in before_pub:
+            continue        # table writes of the release path (after publication) are not part of the submission
+        ixs = [strip_conv(pp[1]) for pp in a.loc[2] if pp[0] == 'idx']
+        if ixs and elem_idx and ixs[0] not in elem_idx:
+            stray = (a, ixs[0])
+    R.check(stray is None, rule, '%s:copied-at-element-index' % eid, site(sg, (stray[0] if stray else dstores[0]).node),
+            'every device-table write is at the index of a shadow element written by this submission',
+            'the device table is written at index %s, which is not an index at which this submission wrote a shadow element (%s): with a permuted '
+            'free list some descriptors of the chain are never copied and the device follows stale entries' % (
+                fmt(stray[1])[:60] if stray else '', ', '.join(sorted(fmt(e)[:40] for e in elem_idx))))
     missing = {'addr', 'len', 'flags', 'next'} - covered
     R.check(not missing, rule, '%s:fields' % eid, site(sg, dstores[0].node),
             'device table receives addr,len,flags,next of each written element',
